@@ -202,7 +202,7 @@ impl ObjectReceiver {
                 self.empty_object_received = true;
                 return Ok(());
             }
-            self.complete(now);
+            self.complete_empty_object(now);
             return Ok(());
         }
 
@@ -403,7 +403,7 @@ impl ObjectReceiver {
             && (self.empty_object_received || !self.cache.is_empty())
         {
             // The lone packet of an empty object was received before the FDT
-            self.complete(now);
+            self.complete_empty_object(now);
             return true;
         }
         self.push_from_cache(now);
@@ -594,6 +594,19 @@ impl ObjectReceiver {
             }
         }
         Ok(())
+    }
+
+    fn complete_empty_object(&mut self, now: std::time::SystemTime) {
+        // The transfer length (0) may come from the packets: the FDT must agree that the object is empty
+        if self.content_length.unwrap_or(0) != 0 {
+            self.error(
+                "Transfer length is 0 but the FDT announces a Content-Length",
+                now,
+                false,
+            );
+            return;
+        }
+        self.complete(now);
     }
 
     fn complete(&mut self, now: std::time::SystemTime) {
